@@ -14,7 +14,7 @@ import sys
 sys.path.insert(0, os.path.dirname(os.path.dirname(os.path.abspath(__file__))))
 
 from mc import runner  # noqa: E402
-from mc.driver import MachineDriver, r6  # noqa: E402
+from mc.driver import MachineDriver, r6, simple_state  # noqa: E402
 from mc.explore import bfs  # noqa: E402
 
 EPS = 1e-6
@@ -449,7 +449,8 @@ class TimerDriver(MachineDriver):
                          (self.dev.ticks, self.dev.running, r.ticks, r.running))
 
     def fingerprint(self):
-        return (self.ref.key(self.loop.time()), self.stopped, self.rel_timers())
+        return (self.ref.key(self.loop.time()), self.stopped, self.rel_timers(),
+                simple_state(self.dev, exclude=("timer", "delay", "event_keys"), now=self.loop.time()))
 
     def observe(self):
         return {"events": [(r6(t - self.t0), e, k) for t, e, k in self.evlog], "ticks": self.dev.ticks}
